@@ -1,7 +1,8 @@
 ------------------------------- MODULE SplitM -------------------------------
 (***************************************************************************)
-(* Implementation-shaped model of the map-driven splitter                   *)
-(* stream_chunks_of_source_map_full (src/helpers.rs): the state it keeps    *)
+(* Implementation-shaped model of the map-driven splitters                  *)
+(* stream_chunks_of_source_map_{full, final, lines_full, lines_final}       *)
+(* (src/helpers.rs); for the first: the state it keeps                      *)
 (* between segments (current generated line / column, the active mapping)   *)
 (* and one step per segment, branch for branch, plus the final sentinel.    *)
 (* It is what SourceMapSource streams with columns and what a CachedSource  *)
@@ -79,6 +80,50 @@ SplitFull(text, segs) ==
   IN IF lines = <<>> THEN <<>>
      ELSE step(FoldLeft(step, SplitInit, segs), sentinel).out
 
+(* The other three modes (src/helpers.rs): text-less final-source streams    *)
+(* and the line-granular ones.  Events are chunks with x = <<>>.             *)
+UnmappedAt(gl, gc) == [gl |-> gl, gc |-> gc, si |-> -1, ol |-> 0, oc |-> 0, ni |-> -1]
+NoName(m) == [m EXCEPT !.ni = -1]
+
+(* stream_chunks_of_source_map_final: mapped segments before the end, and   *)
+(* unmapped ones on a line that already carries a mapped one                *)
+SplitFinal(text, segs) ==
+  LET end == EndPos(text)
+      step(st, m) ==
+        IF m.gl >= end[1] /\ (m.gc >= end[2] \/ m.gl > end[1]) THEN st
+        ELSE IF m.si >= 0
+          THEN [activeLine |-> m.gl, out |-> Append(st.out, Chunk(<<>>, m.gl, m.gc, m))]
+        ELSE IF st.activeLine = m.gl
+          THEN [st EXCEPT !.out = Append(@, Chunk(<<>>, m.gl, m.gc, UnmappedAt(m.gl, m.gc)))]
+        ELSE st
+  IN IF end = <<1, 0>> THEN <<>>
+     ELSE FoldLeft(step, [activeLine |-> 0, out |-> <<>>], segs).out
+
+(* stream_chunks_of_source_map_lines_final: the first mapped segment of     *)
+(* every line up to the last line that has text, at column 0, without name  *)
+SplitLinesFinal(text, segs) ==
+  LET end == EndPos(text)
+      finalLine == IF end[2] = 0 THEN end[1] - 1 ELSE end[1]
+      step(st, m) ==
+        IF m.si >= 0 /\ st.cur <= m.gl /\ m.gl <= finalLine
+          THEN [cur |-> m.gl + 1, out |-> Append(st.out, Chunk(<<>>, m.gl, 0, NoName(m)))]
+          ELSE st
+  IN IF end = <<1, 0>> THEN <<>>
+     ELSE FoldLeft(step, [cur |-> 1, out |-> <<>>], segs).out
+
+(* stream_chunks_of_source_map_lines_full: whole lines, each with the first *)
+(* mapped segment of its line                                               *)
+SplitLinesFull(text, segs) ==
+  LET lines == Lines(text)
+      step(st, m) ==
+        IF m.si < 0 \/ m.gl < st.cur \/ m.gl > Len(lines) THEN st
+        ELSE [cur |-> m.gl + 1,
+              out |-> (st.out \o WholeLines(lines, st.cur, m.gl))
+                        \o <<Chunk(lines[m.gl], m.gl, 0, NoName(m))>>]
+      fin == FoldLeft(step, [cur |-> 1, out |-> <<>>], segs)
+  IN IF lines = <<>> THEN <<>>
+     ELSE fin.out \o WholeLines(lines, fin.cur, Len(lines) + 1)
+
 -----------------------------------------------------------------------------
 (* requirements                                                             *)
 ChunksText(cs) == Concat([i \in 1..Len(cs) |-> cs[i].x])
@@ -102,6 +147,37 @@ SplitOK(text, segs) ==
   IN /\ ChunksText(cs) = text
      /\ PositionsTrue(cs)
      /\ ByteRaw(cs) = [i \in 1..Len(text) |-> ResolveRaw(segs, pt[i][1], pt[i][2])]
+
+(* the final-source events resolve every position of the text as the map    *)
+(* does                                                                     *)
+SplitFinalOK(text, segs) ==
+  LET ev == SplitFinal(text, segs)
+      asSegs == [i \in 1..Len(ev) |-> [ev[i].s EXCEPT !.gl = ev[i].gl, !.gc = ev[i].gc]]
+      pt == PosTable(text)
+  IN /\ \A i \in 1..Len(ev) : ev[i].x = <<>>
+     /\ \A i \in 1..Len(text) :
+          ResolveRaw(asSegs, pt[i][1], pt[i][2]) = ResolveRaw(segs, pt[i][1], pt[i][2])
+
+FirstMappedRaw(segs, ln) ==
+  LET i == FirstMappedIdx(segs, ln)
+  IN IF i = 0 THEN <<-1, 0, 0, -1>> ELSE RawOf(NoName(segs[i]))
+
+(* line-granular streams: one chunk per line of the text, carrying the      *)
+(* first mapped segment of that line                                        *)
+SplitLinesOK(text, segs) ==
+  LET full == SplitLinesFull(text, segs)
+      fin == SplitLinesFinal(text, segs)
+      lines == Lines(text)
+  IN /\ [i \in 1..Len(full) |-> full[i].x] = lines
+     /\ \A i \in 1..Len(full) :
+          /\ <<full[i].gl, full[i].gc>> = <<i, 0>>
+          /\ RawOf(full[i].s) = FirstMappedRaw(segs, i)
+     \* the final-source variant: the mapped ones of these, without text
+     /\ LET mapped == SelectSeq(full, LAMBDA c : c.s.si >= 0)
+        IN /\ Len(fin) = Len(mapped)
+           /\ \A i \in 1..Len(fin) :
+                /\ fin[i].x = <<>> /\ <<fin[i].gl, fin[i].gc>> = <<mapped[i].gl, 0>>
+                /\ RawOf(fin[i].s) = RawOf(mapped[i].s)
 
 (* CachedSource: fill from a chunk stream (EncM), replay through SplitFull  *)
 SegOfChunk(c) == [c.s EXCEPT !.gl = c.gl, !.gc = c.gc]
